@@ -86,6 +86,9 @@ def gen_recipe(rng):
         if rng.random() < 0.25:
             m["lib"] = {"kind": rng.choice(["syncfifo", "asyncfifo", "ffsync", "pulse"]),
                         "d1": rng.choice(doms), "d2": rng.choice(doms), "a": rng.choice(readable)}
+        if rng.random() < 0.2:
+            # a black-box instance clocked from a (usually implicitly created) domain
+            m["inst"] = {"dom": rng.choice(doms), "a": rng.choice(readable)}
         if depth < 3:
             for _ in range(rng.choice([0, 0, 1, 2, 3])):
                 m["subs"].append({"name": rng.choice([None, None, "u", "v", "x", "u"]), "m": gen_module(depth + 1)})
@@ -153,6 +156,13 @@ def build_recipe(recipe):
                 m.submodules.p = p
                 m.d.comb += p.i.eq(a[0])
                 lib_ports.append(p.o)
+        ins = spec.get("inst")
+        if ins:
+            from amaranth.hdl import Instance, ClockSignal, ResetSignal
+            q = Signal(2, name="bb_q")
+            m.submodules.bb = Instance("blackbox", i_clk=ClockSignal(ins["dom"]), i_rst=ResetSignal(ins["dom"], allow_reset_less=True),
+                                       i_a=sigs[ins["a"]], o_q=q)
+            lib_ports.append(q)
         for sub in spec["subs"]:
             if sub["name"] is None:
                 m.submodules += mk(sub["m"])
